@@ -22,6 +22,9 @@ CHECKS = {
     'C13': {'engine': 'interleave',
             'quick': {'runs': 1500, 'max_clients': 5, 'max_steps': 30},
             'thorough': {'runs': 30000, 'max_clients': 6, 'max_steps': 40}},
+    'C14': {'engine': 'optsim',
+            'quick': {'runs': 2500, 'max_vars': 4, 'max_hist': 6},
+            'thorough': {'runs': 25000, 'max_vars': 5, 'max_hist': 9}},
 }
 
 
